@@ -109,6 +109,9 @@ func routesFor(sc *Scn) string {
 	switch sc.Routes {
 	case "undecided":
 		return "[" + und + "]"
+	case "und2":
+		// undecided even after one full prefetch chunk (client 'exact' sends exactly one)
+		return fmt.Sprintf(`[{"match":[{"h_need":{"id":"und2","k":%d}}],"handle":[{"handler":"h_timed"}]}]`, chunk+100)
 	case "nonterm":
 		return `[{"match":[{"h_need":{"id":"one","k":1}}],"handle":[{"handler":"h_consume","id":"c1","n":1}]},` + und + "]"
 	case "sub":
@@ -191,6 +194,9 @@ func execute(x *explore.Exec, sc *Scn) *result {
 				case "eof":
 					cl.Write([]byte("ab"))
 					cl.CloseWrite()
+				case "exact":
+					cl.Write(make([]byte, chunk)) // exactly one prefetch chunk, then silence
+					res.firstByteAt = vsched.NowNS()
 				case "flood":
 					blk := make([]byte, chunk)
 					for sent := 0; sent < limit+3*chunk; sent += chunk {
@@ -220,6 +226,8 @@ func execute(x *explore.Exec, sc *Scn) *result {
 			switch sc.Client {
 			case "silent": // one datagram creates the association, then silence
 				send([]byte("a"))
+			case "exact": // a datagram that fills the prefetch buffer exactly, then silence
+				send(make([]byte, chunk))
 			case "trickle":
 				for i := 0; i < sc.Timeout/sc.Delta+4; i++ {
 					send([]byte{byte('a' + i%26)})
@@ -312,7 +320,7 @@ func check(x *explore.Exec, sc *Scn, r *result) {
 	_ = handlerAt
 	noTimeDev := x.Used(explore.KTime) == 0
 	switch sc.Routes {
-	case "undecided", "nonterm", "sub":
+	case "undecided", "und2", "nonterm", "sub":
 		if handlerStarted {
 			x.Fail("handler-after-undecided", "a handler ran although its route can never be decided; %s", desc())
 		}
@@ -391,11 +399,13 @@ func scenarios(tier string, yield func(any) bool) {
 	for _, proto := range []string{"tcp", "udp"} {
 		for _, T := range timeouts {
 			for _, ph := range phases {
-				for _, routes := range []string{"undecided", "nonterm", "sub", "decide", "needbig", "eatbig"} {
+				for _, routes := range []string{"undecided", "und2", "nonterm", "sub", "decide", "needbig", "eatbig"} {
 					var clients []string
 					switch routes {
 					case "undecided":
 						clients = []string{"silent", "trickle", "eof"}
+					case "und2":
+						clients = []string{"exact"}
 					case "nonterm", "sub":
 						clients = []string{"trickle"}
 					case "decide":
